@@ -124,6 +124,11 @@ def run(ck):
               "%s is not located from the left with the expected separator (forward: %s, reverse: %s): names whose later part contains the separator are split wrongly"
               % (what, [t["f"]["name"] for (_, t) in fw], [t["f"]["name"] for (_, t) in rv]), f.loc())
     name_grammar_rules(ck)
+    # decoding arbitrary bytes is total: input-driven ranges of fixed-size buffers stay inside them
+    from .codec import array_range_sweep
+    array_range_sweep(ck, crate("rs", CC), re.compile(r"Deserial.*::deserial$|::deserial_[a-z_]+$|FromStr>::from_str$"), floor=3, exceptions={
+        CC + "::schema_json::deserial_string#1": "`&buf[..new]` where `new` is the count returned by `read(&mut buf[..to_read])`: at most `to_read` <= 64 by the contract of Read (the request itself, site #0, is proved)",
+    })
 
 
 # the documented grammar of the three name validators (doc comments of types.rs): which predicate must hold (True) or must not
